@@ -552,7 +552,7 @@ pub fn cases(tier: Tier) -> Vec<Case> {
         }
     }
     // F2: pairs of constraints
-    let stride = if tier.quick() { 37 } else { 5 };
+    let stride = if tier.quick() { 37 } else { 1 };
     let mut k = 0usize;
     for (i, c1) in insts.iter().enumerate() {
         for c2 in insts.iter().skip(i + 1) {
@@ -565,19 +565,32 @@ pub fn cases(tier: Tier) -> Vec<Case> {
                 1 => Goal::Minimize("x".into()),
                 _ => Goal::Maximize("x".into()),
             };
-            out.push(Case {
-                f: model(vec![c1.clone(), c2.clone()], goal, String::new()),
-                flags: if k % 2 == 0 { vec!["-a"] } else { vec![] },
-            });
+            if tier.quick() {
+                out.push(Case {
+                    f: model(vec![c1.clone(), c2.clone()], goal, String::new()),
+                    flags: if k % 2 == 0 { vec!["-a"] } else { vec![] },
+                });
+            } else {
+                for goal in [Goal::Satisfy, Goal::Minimize("x".into()), Goal::Maximize("x".into())] {
+                    for flags in [vec![], vec!["-a"]] {
+                        out.push(Case { f: model(vec![c1.clone(), c2.clone()], goal.clone(), String::new()), flags });
+                    }
+                }
+            }
         }
     }
     // F3: declaration variants on top of a few constraints
-    let core = [
-        insts.iter().find(|c| c.name == "int_lin_le").unwrap().clone(),
-        insts.iter().find(|c| c.name == "int_times").unwrap().clone(),
-        insts.iter().find(|c| c.name == "bool_clause").unwrap().clone(),
-        insts.iter().find(|c| c.name == "int_ne").unwrap().clone(),
-    ];
+    let core: Vec<ConDecl> = if tier.quick() {
+        vec![
+            insts.iter().find(|c| c.name == "int_lin_le").unwrap().clone(),
+            insts.iter().find(|c| c.name == "int_times").unwrap().clone(),
+            insts.iter().find(|c| c.name == "bool_clause").unwrap().clone(),
+            insts.iter().find(|c| c.name == "int_ne").unwrap().clone(),
+        ]
+    } else {
+        // every instantiation of every constraint under every declaration variant
+        insts.clone()
+    };
     for c in &core {
         for variant in 0..23 {
             let mut f = model(vec![c.clone(), ConDecl { name: "int_le", args: vec![v("x"), v("x")] }], Goal::Satisfy, String::new());
@@ -923,7 +936,7 @@ impl Property for C13 {
     }
     fn rule(&self, tier: Tier) -> String {
         format!(
-            "Grammar-bounded enumeration of FlatZinc texts: {} instantiations covering every constraint name handled by the front end (arguments from 3 integer variables with range/set domains, 3 Boolean variables, constants, inline and named arrays, set literals); families: single constraint x goal {{satisfy, minimize, maximize}} x flags {{none, -a, -f, -a -f}} (+ --optimisation-strategy linear-unsat-sat), pairs of constraints (stride), declaration variants (one and two alias pairs, alias with a smaller domain, = constant, Boolean alias/fixed, variable arrays with output_array, parameter arrays, scalar / set / Boolean-array parameters used in constraint arguments, set-domain aliases in both directions, Boolean fixed to false with an alias chain, several reified equalities of one variable joined by a clause, non-output variables), 8 unsatisfiable models (at compile time, at the root, after search) x goals x flags, 4 conflict-rich models x 12 command-line configurations (resolver, minimisation, restart policies, nogood database limits, all six cumulative propagation methods with explanation types / holes / sequence generation / incremental backtracking) x goals, search annotations (int_search/bool_search/seq_search x {} variable x {} value selection names); {} files in total, each run through the real binary. Oracle: an independent evaluator of the builtins brute-forces the declared domains: every printed block is the projection of a solution; satisfy prints one block or the unsatisfiable marker exactly when there is none; with -a the printed SET equals the projection of all solutions and ========== follows; for minimize/maximize the last block before ========== is optimal; non-zero exit, panic or unparsable line is a violation. A case = one (file, flags); non-trivial = the model has some but not all assignments as solutions.",
+            "Grammar-bounded enumeration of FlatZinc texts: {} instantiations covering every constraint name handled by the front end (arguments from 3 integer variables with range/set domains, 3 Boolean variables, constants, inline and named arrays, set literals); families: single constraint x goal {{satisfy, minimize, maximize}} x flags {{none, -a, -f, -a -f}} (+ --optimisation-strategy linear-unsat-sat), pairs of constraints (quick: stride; thorough: every pair x 3 goals x {none, -a}), declaration variants (in the thorough tier on every instantiation; one and two alias pairs, alias classes of three and four members built as fans / chains / interleaved and followed by further variables, alias with a smaller domain, = constant, Boolean alias/fixed, variable arrays with output_array, parameter arrays, scalar / set / Boolean-array parameters used in constraint arguments, set-domain aliases in both directions, Boolean fixed to false with an alias chain, several reified equalities of one variable joined by a clause, non-output variables), 8 unsatisfiable models (at compile time, at the root, after search) x goals x flags, 4 conflict-rich models x 12 command-line configurations (resolver, minimisation, restart policies, nogood database limits, all six cumulative propagation methods with explanation types / holes / sequence generation / incremental backtracking) x goals, search annotations (int_search/bool_search/seq_search x {} variable x {} value selection names); {} files in total, each run through the real binary. Oracle: an independent evaluator of the builtins brute-forces the declared domains: every printed block is the projection of a solution; satisfy prints one block or the unsatisfiable marker exactly when there is none; with -a the printed SET equals the projection of all solutions and ========== follows; for minimize/maximize the last block before ========== is optimal; non-zero exit, panic or unparsable line is a violation. A case = one (file, flags); non-trivial = the model has some but not all assignments as solutions.",
             constraint_instances().len(),
             VAR_SEL.len(),
             VAL_SEL.len(),
